@@ -243,19 +243,16 @@ func AppendBitmaskString[T ~int32](dst []byte, tag int, value T, sep string) []b
 		if v == 0 {
 			continue
 		}
-		if i < len(mapper) && mapper[i] == "" {
-			continue
-		}
 		if wrote {
 			dst = append(dst, bsep...)
 		}
 		wrote = true
-		if i < len(mapper) {
+		if i < len(mapper) && mapper[i] != "" {
 			dst = append(dst, []byte(mapper[i])...)
 			continue
 		}
-		// Handle case where it's not registered
-		// by writing 0x prefixed hex value
+		// Handle case where it's not registered, or registered without a name
+		// (a reserved bit), by writing 0x prefixed hex value
 		//nolint:gosec // this cast is safe as we are appending a hex value
 		dst = fmt.Appendf(dst, "0x%08X", uint32(v))
 	}
